@@ -2,7 +2,7 @@
 
 shape  := {"t": "space", "e": [dp, ...]}
 dp     := {"t": "choices", "k": int, "c": [space, ...], "distinct": bool, "sorted": bool,
-           "name": str|None, "lit": bool}
+           "name": str|None, "lit": bool|"digits"|"ints"}
         | {"t": "float", "lo": num, "hi": num, "name": str|None}
         | {"t": "custom", "name": str|None}
 """
@@ -78,8 +78,14 @@ def build(shape, _counter=None, location=None):
   if t == 'choices':
     cands = [build(c, counter) for c in shape['c']]
     lits = None
-    if shape.get('lit'):
-      lits = ['v%d' % i for i in range(len(cands))]
+    lit, n = shape.get('lit'), len(cands)
+    if lit == 'digits':
+      # strings of digits that do not spell their own position
+      lits = [str((i + 1) % n) if n > 1 else '7' for i in range(n)]
+    elif lit == 'ints':
+      lits = [(i + 1) % n if n > 1 else 7 for i in range(n)]
+    elif lit:
+      lits = ['v%d' % i for i in range(n)]
     kw = dict(distinct=shape.get('distinct', True), sorted=shape.get('sorted', False),
               literal_values=lits, location=location or '', name=name)
     return G.manyof(shape['k'], cands, **kw)
@@ -197,10 +203,10 @@ def shape_strategy(max_depth=2, floats=False, custom=False, names=False, max_can
       if names and name:
         d['name'] = name
       if names and lit:
-        d['lit'] = True
+        d['lit'] = lit
       return d
     return st.builds(mk, st.lists(sub, min_size=1, max_size=max_cands), st.integers(1, max_k), st.booleans(),
-                     st.booleans(), st.sampled_from(NAMES), st.booleans())
+                     st.booleans(), st.sampled_from(NAMES), st.sampled_from([False, False, False, True, True, 'digits', 'ints']))
 
   def dps(sub):
     opts = [choices(sub)]
